@@ -43,13 +43,13 @@ HOOK_COMMITS = ["a570d77", "892fb38", "f85b010", "cff13f8", "e658946", "e9ed0c9"
 
 prop("C04", "exploration",
      "lifecycle world: 1-2 real requestors and a real responder, 1-3 requests, per request a scripted environment (request hook accept/terminate/pause/reject, block hook pause/error at block k, requestor response-hook error, requestor block-hook pause/error) and up to two caller/operator actions (context cancel, Cancel API, pause/unpause on either side, updates) enabled from a drawn step; fault family adds send failures, lost acks, connect failures, disconnects, store read errors and small retry counts; after heal every paused exchange is unpaused, then every open request is cancelled by its caller and drained; distinct = distinct trace hash",
-     _b(1500, 90, 60000, 1500), lock_yield_files=["messagequeue/messagequeue.go", "responsemanager/responseassembler/responseassembler.go", "responsemanager/responseassembler/peerlinktracker.go", "peermanager/peermanager.go", "notifications/publisher.go", "allocator/allocator.go"], probes=["act:ctxcancel", "act:apicancel", "act:pause"])
+     _b(1500, 90, 60000, 1500), lock_yield_files=["messagequeue/messagequeue.go", "responsemanager/responseassembler/responseassembler.go", "responsemanager/responseassembler/peerlinktracker.go", "peermanager/peermanager.go", "notifications/publisher.go", "allocator/allocator.go", "taskqueue/taskqueue.go#TaskDone"], probes=["act:ctxcancel", "act:apicancel", "act:pause"])
 prop("C05", "exploration",
      "same lifecycle world without requestor-side pause; oracle over the responder's completed / cancelled / network-error listeners, PeerState, Stats and ConnManager protect/unprotect for every request the responder's request hook saw",
-     _b(1500, 90, 60000, 1500), lock_yield_files=["messagequeue/messagequeue.go", "responsemanager/responseassembler/responseassembler.go", "responsemanager/responseassembler/peerlinktracker.go", "peermanager/peermanager.go", "notifications/publisher.go", "allocator/allocator.go"], probes=["act:bcancel", "act:bpause"])
+     _b(1500, 90, 60000, 1500), lock_yield_files=["messagequeue/messagequeue.go", "responsemanager/responseassembler/responseassembler.go", "responsemanager/responseassembler/peerlinktracker.go", "peermanager/peermanager.go", "notifications/publisher.go", "allocator/allocator.go", "taskqueue/taskqueue.go#TaskDone"], probes=["act:bcancel", "act:bpause"])
 prop("C23", "exploration",
      "same lifecycle world; at every quiescent step at which no goroutine of the node is held at one of the simulator's internal yields, PeerState(...) of every node is compared with its task queue through Diagnostics(); Stats() must be zero at the end",
-     _b(1500, 90, 60000, 1500), lock_yield_files=["messagequeue/messagequeue.go", "responsemanager/responseassembler/responseassembler.go", "responsemanager/responseassembler/peerlinktracker.go", "peermanager/peermanager.go", "notifications/publisher.go", "allocator/allocator.go"], probes=["c23-peerstate-compared"])
+     _b(1500, 90, 60000, 1500), lock_yield_files=["messagequeue/messagequeue.go", "responsemanager/responseassembler/responseassembler.go", "responsemanager/responseassembler/peerlinktracker.go", "peermanager/peermanager.go", "notifications/publisher.go", "allocator/allocator.go", "taskqueue/taskqueue.go#TaskDone"], probes=["c23-peerstate-compared"])
 
 prop("C06", "fault_enumeration",
      "the C02 world (generated DAG, selector, 4-way store split, real requestor and responder) plus one pause and one resume: side in {requestor, responder} x mechanism in {block hook at block index 1..10, API call from step 0..80} x resume delay 0..30 steps, in two families kept apart: quiet (resume offered only when nothing is in flight) and racing (resume at any time); compared with the uninterrupted reference traversal; wire monitor for block data while paused; distinct = distinct trace hash",
